@@ -74,6 +74,7 @@ def specified_rules(prog):
 
 
 def check(prog, run):
+    check_parent_exclusivity(prog, run, "E1")
     rcs = rule_classes(prog)
     spec = specified_rules(prog)
     ncs = nodeshape.node_classes(prog)
@@ -642,3 +643,79 @@ def check_positional_pairing(prog, run, rule_id):
             r.instance("%s: `%s` reached on %d executions, raw operand on %d" % (f.qualname, " ".join(_a.unparse(z).split())[:50], paths, raw_paths))
     if not n:
         raise AnalysisError("C06.%s: no zip() pairing found under validation/" % rule_id)
+
+
+def check_parent_exclusivity(prog, run, rule_id):
+    """Two fields under one response key may differ in name / arguments only when they can never apply to the same object."""
+    from .. import boolx, dispatch
+    import re
+    modname = "py_gql.validation.rules.overlapping_fields_can_be_merged"
+    r = run.rule(rule_id, "_find_conflict, decided for every pair of parent kinds (ObjectType, InterfaceType, UnionType) x (same parent, "
+                          "different parents) with no exclusivity inherited from the enclosing selections and two different field names: "
+                          "the pair is reported as a conflict on every execution, except that two different *object* types excuse it (no "
+                          "object is an instance of both) - an abstract parent (interface or union) may share objects with the other "
+                          "parent, so treating it as exclusive lets `k: __typename ... on Dog { k: name }` through and the executor "
+                          "answers whichever field is written first", 18)
+    fc = prog.get_func(modname, "_find_conflict")
+    run.looked_at(fc)
+    ps = [a.arg for a in fc.node.args.args]
+    if len(ps) < 5:
+        raise AnalysisError("C06.%s: _find_conflict no longer takes (ctx, exclusive, key, field_1, field_2)" % rule_id)
+    excl, f1, f2 = ps[1], ps[3], ps[4]
+    parents = {}
+    for n in own_nodes(fc.node):
+        if isinstance(n, ast.Assign) and isinstance(n.targets[0], ast.Tuple) and isinstance(n.value, ast.Name) and n.value.id in (f1, f2) \
+                and n.targets[0].elts and isinstance(n.targets[0].elts[0], ast.Name):
+            parents[n.value.id] = n.targets[0].elts[0].id
+    if set(parents) != {f1, f2}:
+        raise AnalysisError("C06.%s: the parent types of the two fields are not unpacked from %s / %s" % (rule_id, f1, f2))
+    p1, p2 = parents[f1], parents[f2]
+    hier = dispatch.Hierarchy(prog)
+    # the two field names: `<node>.name.value`, or a local bound to it
+    nm = {x.targets[0].id for x in own_nodes(fc.node) if isinstance(x, ast.Assign) and len(x.targets) == 1 and isinstance(x.targets[0], ast.Name)
+          and ast.unparse(x.value).endswith(".name.value")}
+    side = r"(?:[\w.]+\.name\.value%s)" % "".join("|" + re.escape(n) for n in sorted(nm))
+    name_atom = re.compile(r"^%s (!=|==) %s$" % (side, side))
+    bad, rows = [], 0
+    for k1 in ("ObjectType", "InterfaceType", "UnionType"):
+        for k2 in ("ObjectType", "InterfaceType", "UnionType"):
+            for differ in (True, False):
+                seen_name_test = []
+
+                def extra(t, differ=differ):
+                    if t == excl:
+                        return False
+                    if t in ("%s != %s" % (p1, p2), "%s != %s" % (p2, p1), "%s is not %s" % (p1, p2), "%s is not %s" % (p2, p1)):
+                        return differ
+                    if t in ("%s == %s" % (p1, p2), "%s == %s" % (p2, p1), "%s is %s" % (p1, p2), "%s is %s" % (p2, p1)):
+                        return not differ
+                    m = name_atom.match(t)
+                    if m:
+                        return m.group(1) == "!="
+                    return None
+                d2 = dispatch.decide_for(hier, p2, k2, extra)
+                d1 = dispatch.decide_for(hier, p1, k1, d2)
+                try:
+                    _ev, exits = boolx.walk_under(fc.node, d1)
+                except ValueError as e:
+                    raise AnalysisError("C06.%s: %s" % (rule_id, e))
+                outcomes = set()
+                for kind, st, env in exits:
+                    tested = any(name_atom.match(t) for t, _v in env.get(boolx.TESTS, ()))
+                    if kind == "return" and tested and isinstance(st.value, ast.Tuple):
+                        outcomes.add("conflict")
+                    elif tested:
+                        outcomes.add("tested-but-%s" % kind)
+                    else:
+                        outcomes.add("not-compared")
+                exclusive = differ and k1 == "ObjectType" and k2 == "ObjectType"
+                want = {"not-compared"} if exclusive else {"conflict"}
+                rows += 1
+                r.instance("parents (%s, %s) %s -> %s" % (k1, k2, "different" if differ else "same", sorted(outcomes)))
+                if outcomes != want:
+                    bad.append({"parent_1": k1, "parent_2": k2, "different": differ, "outcomes": sorted(outcomes), "expected": sorted(want)})
+    if bad:
+        run.report(r, "%s:_find_conflict:parent-exclusivity" % modname, fc.where(),
+                   "fields with different names under one response key are %s for parent kinds %s" % (
+                       "not reported" if "conflict" in bad[0]["expected"] else "reported although no object can have both parents",
+                       ["%s/%s/%s" % (b["parent_1"], b["parent_2"], "different" if b["different"] else "same") for b in bad[:4]]), {"rows": bad})
